@@ -8,7 +8,7 @@ import LlgoVerif.Spec.DeferSem
     `frame <stmts> <hist>`                        frame layer only: calls made by `Model.unwindView` and by `Spec.unwindView`
                                                   (`hist` = statement indices, comma separated, oldest first; payload = position)
 
-    prog  := fn ('|' fn)*            fn := capR [entryFrame [implicitRun]] ';' stmts ';' events
+    prog  := fn ('|' fn)*            fn := capR [entryFrame [implicitRun]] ('.' droppedSite)* ';' stmts ';' events
     stmts := '' | stmt (',' stmt)*   stmt := kind '.' clo '.' nargs '.' fn        kind ∈ a c l x
     events:= '' | ev (',' ev)*       ev := d.k(.arg)* | c.g(.arg)* | m.int | p.arg | f | R | t | e | s.up.var.arg | a.up.var.arg | w.up.var
     arg   := l<int> | x | r | p<nat>
@@ -61,10 +61,18 @@ def parseList {α : Type} (f : String → Option α) (s : String) : Option (List
 def parseFn (s : String) : Option Fn :=
   match s.splitOn ";" with
   | [c, ss, evs] =>
+    -- header: flags, then the indices of dropped defer sites: `cei.k1.k2`
+    match c.splitOn "." with
+    | [] => none
+    | c :: ds =>
+    match ds.mapM String.toNat? with
+    | none => none
+    | some dropped =>
+    (fun (r : Option Fn) => r.map fun f => { f with dropped := dropped }) <|
     match c.toList with
-    | [a] => do pure ⟨← parseList parseStmt ss, ← parseList parseEv evs, ← parseBool (String.singleton a), false, false⟩
-    | [a, b] => do pure ⟨← parseList parseStmt ss, ← parseList parseEv evs, ← parseBool (String.singleton a), ← parseBool (String.singleton b), false⟩
-    | [a, b, c] => do pure ⟨← parseList parseStmt ss, ← parseList parseEv evs, ← parseBool (String.singleton a), ← parseBool (String.singleton b), ← parseBool (String.singleton c)⟩
+    | [a] => do pure ⟨← parseList parseStmt ss, ← parseList parseEv evs, ← parseBool (String.singleton a), false, false, []⟩
+    | [a, b] => do pure ⟨← parseList parseStmt ss, ← parseList parseEv evs, ← parseBool (String.singleton a), ← parseBool (String.singleton b), false, []⟩
+    | [a, b, c] => do pure ⟨← parseList parseStmt ss, ← parseList parseEv evs, ← parseBool (String.singleton a), ← parseBool (String.singleton b), ← parseBool (String.singleton c), []⟩
     | _ => none
   | _ => none
 
@@ -89,6 +97,9 @@ def showFlag : Flag → String
   | .staleFrame => "staleFrame"
   | .regResult => "regResult"
   | .resultBeforeRun => "resultBeforeRun"
+  | .droppedDefer => "droppedDefer"
+  | .frameInitSkipped => "frameInitSkipped"
+  | .nodesLeft => "nodesLeft"
   | .recoverIndirect => "recoverIndirect"
   | .nestedRecover => "nestedRecover"
 
